@@ -12,14 +12,16 @@ import (
 )
 
 type SpecEnv struct {
-	tx       *FnTx
-	vars     map[string]Term
-	locs     map[string]*Loc
-	cur, old *State
-	pkg      *types.Package
-	resolve  func(name string) (Term, *Loc, bool) // local variable resolver (loop invariants)
-	nq       int
-	allocOld string // alloc counter of the old state (for fresh())
+	tx           *FnTx
+	vars         map[string]Term
+	locs         map[string]*Loc
+	cur, old     *State
+	pkg          *types.Package
+	resolve      func(name string) (Term, *Loc, bool) // local variable resolver (loop invariants)
+	nq           int
+	allocOld     string // alloc counter of the old state (for fresh())
+	preferLocals bool
+	paramNames   map[string]bool // loop invariants / call assertions: a reassigned parameter means its current value
 }
 
 type specErr struct{ msg string }
@@ -284,6 +286,16 @@ func (e *SpecEnv) binary(n *SBinary, old bool) Term {
 }
 
 func (e *SpecEnv) ident(name string, old bool) Term {
+	if e.preferLocals && e.resolve != nil && !old {
+		if _, isParam := e.paramNames[name]; isParam {
+			if t, l, ok := e.resolve(name); ok {
+				if l != nil {
+					return e.tx.h.read(e.state(old), l)
+				}
+				return t
+			}
+		}
+	}
 	if v, ok := e.vars[name]; ok {
 		return v
 	}
